@@ -839,6 +839,11 @@ impl TreeProp {
                         format!("iteration {}: edge {p}->{j} (length {d}) has an unvalidated stretch of {gap} at {at}; resolution {}", i + 1, g.lvs_ref()),
                     ));
                 }
+                // the consequence the validation stands for, looked at directly (along the
+                // harness's own interpolation): no invalid stretch longer than the resolution
+                if let Some(at) = cx.ev.invalid_stretch(&**g, cx.w, ps, &node.0) {
+                    return Err(viol("C15", format!("C15/edge_crosses_invalid_stretch/{}", cx.pk), format!("iteration {}: edge {p}->{j} crosses an invalid stretch longer than 1.25 L near position {at}", i + 1)));
+                }
             }
         }
         Ok(())
